@@ -151,6 +151,23 @@ Reorg(d, n, S) ==
     /\ UNCHANGED <<sent, running>>
     /\ Step("Reorg", [d |-> d, n |-> n, txs |-> S])
 
+(* the top d blocks are disconnected and then the very same blocks are        *)
+(* connected again (invalidateblock / reconsiderblock, a competing branch     *)
+(* that is abandoned): the backend's chain is unchanged afterwards            *)
+RECURSIVE ConnectSame(_, _)
+ConnectSame(w, pos) ==
+    IF pos > Tip THEN w
+    ELSE ConnectSame(OnConnect(w, pos, chain[pos], {t \in Txs : conf[t] = pos}), pos + 1)
+
+Flap(d) ==
+    /\ d \in 1..MaxDepth /\ d <= Tip - MinKeep
+    /\ lastDisc' = <<0, 0>>       \* those blocks are on the chain again: a repeat would not be stale
+    /\ IF running
+       THEN SetW(ConnectSame(Disconnects(W, chain, d), Tip - d + 1))
+       ELSE UNCHANGED <<wchain, wconf>>
+    /\ UNCHANGED <<bvars, running>>
+    /\ Step("Flap", [d |-> d])
+
 (* the backend repeats its last disconnect notification *)
 DupDisconnect ==
     /\ running /\ lastDisc[1] # 0
@@ -181,6 +198,7 @@ Next ==
     \/ \E t \in Txs : Receive(t)
     \/ \E S \in SUBSET Txs : Extend(S)
     \/ \E d \in 1..MaxDepth, n \in 1..(MaxDepth+1), S \in SUBSET Txs : Reorg(d, n, S)
+    \/ \E d \in 1..MaxDepth : Flap(d)
     \/ DupDisconnect
     \/ \E p \in 1..MaxLen : StaleDisconnect(p)
     \/ Stop \/ Start
